@@ -196,7 +196,9 @@ class Run:
 		self.generic_ranges = generic_contexts(tree)
 		# class -> (base names, the lines of the class lie in a generic context, names of its methods)
 		self.class_info = {n.name: ([b.id if isinstance(b, ast.Name) else b.value.id if isinstance(b, ast.Subscript) and isinstance(b.value, ast.Name) else '' for b in n.bases],
-			any(lo == n.lineno for lo, _ in self.generic_ranges), {m.name for m in n.body if isinstance(m, ast.FunctionDef)}, [ast.unparse(b) for b in n.bases])
+			any(lo == n.lineno for lo, _ in self.generic_ranges), {m.name for m in n.body if isinstance(m, ast.FunctionDef)}, [ast.unparse(b) for b in n.bases],
+			# method -> annotation of its first parameter after self (quotes stripped)
+			{m.name: (ast.unparse(m.args.args[1].annotation).strip('\'"') if len(m.args.args) > 1 and m.args.args[1].annotation is not None else '') for m in n.body if isinstance(m, ast.FunctionDef)})
 			for n in ast.walk(tree) if isinstance(n, ast.ClassDef)}
 		self.instr = _Instr()
 		tree = ast.fix_missing_locations(self.instr.visit(tree))
@@ -356,9 +358,11 @@ def op_name(n: ast.AST) -> str:
 # failing input classes listed as known findings (the other names computed below are repaired: listed as fixed)
 UNDERSTOOD = {'dict-get-missing-key', 'list-literal-class-dedup', 'union-of-subclasses-attribute', 'ternary-union-of-containers',
 	'tuple-slice-nonliteral-bounds', 'abs-of-bool', 'min-max-mixed-numeric', 'list-of-dict-items', 'boolop-nonbool-operands', 'explicit-init-call',
-	'generic-method-on-indirect-subclass', 'generic-method-nested-type-argument'}
+	'generic-method-on-indirect-subclass', 'generic-method-nested-type-argument', 'operator-operand-indirect-subclass', 'shift-reflected-user-operand', 'spread-first-type-argument'}
 
 CONTAINER_HEADS = ('list', 'dict', 'tuple')
+BINOP_DUNDER = {'Add': '__add__', 'Sub': '__sub__', 'Mult': '__mul__', 'Div': '__truediv__', 'Mod': '__mod__', 'BitOr': '__or__', 'BitAnd': '__and__',
+	'BitXor': '__xor__', 'LShift': '__lshift__', 'RShift': '__rshift__'}
 
 
 def union_members(r: str) -> list[list[str]]:
@@ -381,7 +385,7 @@ GENERIC_OF_UNION = re.compile(r'(list|dict|tuple|Iterator|ItemsView|Pair)<[^<>]*
 
 def canonical_key(raw: str, site: dict[str, Any], real: str, runtime: list[str], kids: list[tuple[dict[str, Any], str]],
 		descendants: list[tuple[dict[str, Any], str]], message: str, binder_reals: list[str], class_names: set[str] = frozenset(),  # type: ignore[assignment]
-		class_info: dict[str, tuple[list[str], bool, set[str], list[str]]] | None = None) -> str:
+		class_info: dict[str, Any] | None = None) -> str:
 	"""A stable name for a failing input class that is already understood (the predicate is on the failing site itself:
 	node kind, operator, inferred operand types); otherwise the structural key."""
 	n = site['node']
@@ -406,6 +410,38 @@ def canonical_key(raw: str, site: dict[str, Any], real: str, runtime: list[str],
 				return b is None or (isinstance(b, ast.Constant) and type(b.value) is int and b.value >= 0)
 			# omitted, literal and signed literal bounds were repaired (c5f6dc1, da8b916); computed bounds still keep the whole tuple type
 			return 'tuple-slice' if literal(n.slice.lower) and literal(n.slice.upper) and n.slice.step is None else 'tuple-slice-nonliteral-bounds'
+		if isinstance(n, ast.List) and any(isinstance(x, ast.Starred) for x in n.elts):
+			# a spread item whose type has several DIFFERENT type arguments that all describe the items: tuple<int, str>, ItemsView<K, V>
+			for x in n.elts:
+				if isinstance(x, ast.Starred):
+					xr = next((r for s2, r in descendants if s2['span'] == (x.value.lineno, x.value.col_offset, x.value.end_lineno, x.value.end_col_offset)), '')
+					try:
+						pt = parse_ty(xr)
+					except ValueError:
+						continue
+					if pt[0] in ('tuple', 'ItemsView') and len({repr(a) for a in pt[1]}) > 1:
+						return 'spread-first-type-argument'
+		if isinstance(n, ast.BinOp) and isinstance(n.op, (ast.LShift, ast.RShift)) and class_info and len(kid_real) == 2 and kid_real[0] in ('int', 'bool') and kid_real[1] in class_info:
+			return 'shift-reflected-user-operand'
+		if isinstance(n, ast.BinOp) and class_info and len(kid_real) == 2 and kid_real[0] in class_info and kid_real[1] in class_info:
+			# an operand of a user class that is TWO or more levels below the class the operator method of the left operand takes:
+			# try_operation looks at the operand's class and its direct bases only (traits.py:218-223)
+			dunder = BINOP_DUNDER.get(type(n.op).__name__, '')
+
+			def ancestors(c: str) -> list[str]:
+				out2: list[str] = []
+				todo = list(class_info[c][0]) if c in class_info else []
+				while todo:
+					x = todo.pop(0)
+					if x and x not in out2:
+						out2.append(x)
+						todo = (list(class_info[x][0]) if x in class_info else []) + todo
+				return out2
+			decl_cls = next((c for c in [kid_real[0], *ancestors(kid_real[0])] if c in class_info and dunder in class_info[c][2]), None)
+			if decl_cls is not None:
+				prm = class_info[decl_cls][4].get(dunder, '')
+				if prm and prm != kid_real[1] and prm not in class_info[kid_real[1]][0] and prm in ancestors(kid_real[1]):
+					return 'operator-operand-indirect-subclass'
 		if isinstance(n, ast.Call) and isinstance(n.func, ast.Attribute) and n.func.attr == '__init__' and 'None' in runtime:
 			return 'explicit-init-call'
 		if isinstance(n, ast.Call) and isinstance(n.func, ast.Attribute) and class_info and kid_real and kid_real[0].split('<')[0] in class_info:
